@@ -1,2 +1,30 @@
 //! Read-only probe (child module of `ntp-proto/src/system.rs`), compiled only under
-//! `--cfg pendulum_project_ntpd_rs_verif`. Owned by the world that needs it; must never mutate state.
+//! `--cfg pendulum_project_ntpd_rs_verif`. Owned by world w1x; never mutates state.
+
+use super::{NtpManager, NtpServerInfo};
+use crate::packet::v5::server_reference_id::ServerId;
+use crate::{ClockId, NtpSourceSnapshot};
+
+impl NtpManager {
+    pub fn verif_server_id(&self) -> ServerId {
+        self.server_id
+    }
+
+    /// What the node's `Server` instances read when answering.
+    pub fn verif_server_info(&self) -> NtpServerInfo {
+        *self.server_info.read().unwrap()
+    }
+
+    /// The snapshot a source last published for the used-sources computation.
+    pub fn verif_source_snapshot(&self, id: ClockId) -> Option<NtpSourceSnapshot> {
+        self.source_snapshots.lock().unwrap().get(&id).copied()
+    }
+
+    pub fn verif_local_stratum(&self) -> u8 {
+        self.synchronization_config.local_stratum
+    }
+
+    pub fn verif_local_ips(&self) -> Vec<std::net::IpAddr> {
+        self.source_info.read().unwrap().ip_list.to_vec()
+    }
+}
